@@ -169,7 +169,10 @@ def regen_tables():
     if rc != 0:
         return False, "translate_attrs failed:\n" + out0[-3000:]
     rc, out = sh([sys.executable, os.path.join(VERIF, "tools", "gen_tables.py"), jp, os.path.join(LEAN, "Shm", "Gen"), ap])
-    return rc == 0, out0 + out
+    if rc != 0:
+        return False, out0 + out
+    rc, out2 = sh([sys.executable, os.path.join(VERIF, "tools", "gen_dbkinds.py"), REPO, os.path.join(BUILD, "plain"), os.path.join(LEAN, "Shm", "Gen")])
+    return rc == 0, out0 + out + out2
 
 
 def lake_build():
